@@ -358,17 +358,23 @@ func run(c Case) (out outcome, err error) {
 				refreshed[op.Name] = true
 			} else {
 				delete(refreshed, op.Name)
-				// a new name: at most cap packets stay cached, victims are the least recently used
-				for len(m.order) > m.cap {
-					m.drop(m.order[0])
-					out.evictions++
-				}
-				if pcs.CsSize() > m.cap {
-					return out, fmt.Errorf("step %d: after inserting new name %s the store holds %d packets, capacity is %d", i, op.Name, pcs.CsSize(), m.cap)
-				}
-				if err := evictedAreGone(pcs, m, i); err != nil {
-					return out, err
-				}
+			}
+			// When and how many packets are evicted is open as long as a new name leaves at most
+			// the capacity: the store may also enforce a lowered capacity on a refresh, or evict
+			// below the capacity (batching). Whatever went must be the least recently used.
+			sz := pcs.CsSize()
+			if !existed && sz > m.cap {
+				return out, fmt.Errorf("step %d: after inserting new name %s the store holds %d packets, capacity is %d", i, op.Name, sz, m.cap)
+			}
+			if sz > len(m.order) {
+				return out, fmt.Errorf("step %d: after inserting %s the store reports %d packets, only %v can be cached", i, op.Name, sz, m.order)
+			}
+			for len(m.order) > sz {
+				m.drop(m.order[0])
+				out.evictions++
+			}
+			if err := evictedAreGone(pcs, m, i); err != nil {
+				return out, err
 			}
 		case "find":
 			in := &spec.Interest{NameV: mkName(op.Name), CanBePrefixV: op.CBP, MustBeFreshV: op.MBF}
